@@ -824,11 +824,24 @@ Qed.
 
 Lemma get_connptr_null_watchers ws : forall st w,
   get_connptr w (null_watchers ws st) =
-  if existsb (wref_eqb w) ws then Some None else get_connptr w st.
+  if existsb (wref_eqb w) ws then match get_connptr w st with Some _ => Some None | None => None end
+  else get_connptr w st.
 Proof.
   induction ws as [|w0 ws IH]; intros st w; cbn [null_watchers existsb]; [reflexivity|].
-  rewrite IH, get_set_connptr. destruct (existsb (wref_eqb w) ws); [rewrite orb_true_r; reflexivity|].
-  rewrite orb_false_r. reflexivity.
+  rewrite IH. destruct (get_connptr w0 st) as [p0|] eqn:E0.
+  - rewrite get_set_connptr. destruct (wref_eqb_spec w w0) as [->|Hne]; cbn [orb].
+    + rewrite E0. destruct (existsb (wref_eqb w0) ws); reflexivity.
+    + reflexivity.
+  - destruct (wref_eqb_spec w w0) as [->|Hne]; cbn [orb]; [|reflexivity].
+    rewrite E0. destruct (existsb (wref_eqb w0) ws); reflexivity.
+Qed.
+
+(* a notification never brings a destroyed handle back, nor destroys one *)
+Lemma get_connptr_null_watchers_dom ws st w :
+  get_connptr w (null_watchers ws st) <> None <-> get_connptr w st <> None.
+Proof.
+  rewrite get_connptr_null_watchers. destruct (existsb (wref_eqb w) ws); [|reflexivity].
+  destruct (get_connptr w st); split; intro H; try discriminate; exact H.
 Qed.
 
 Lemma existsb_wref w ws : existsb (wref_eqb w) ws = true <-> In w ws.
@@ -845,14 +858,14 @@ Lemma null_watchers_fields ws : forall st,
   next_iid (null_watchers ws st) = next_iid st /\ next_ph (null_watchers ws st) = next_ph st.
 Proof.
   induction ws as [|w ws IH]; intro st; cbn [null_watchers]; [repeat split|].
-  destruct (IH (set_connptr w None st)) as (H1 & H2 & H3 & H4 & H5 & H6 & H7 & H8).
-  rewrite H1, H2, H3, H4, H5, H6, H7, H8. destruct w; repeat split.
+  destruct (IH (match get_connptr w st with Some _ => set_connptr w None st | None => st end)) as (H1 & H2 & H3 & H4 & H5 & H6 & H7 & H8).
+  rewrite H1, H2, H3, H4, H5, H6, H7, H8. destruct (get_connptr w st); [|repeat split]. destruct w; repeat split.
 Qed.
 
 Lemma null_watchers_shared ws : forall st, shared (null_watchers ws st) = shared st.
 Proof.
   induction ws as [|w ws IH]; intro st; cbn [null_watchers]; [reflexivity|].
-  rewrite IH. destruct w; reflexivity.
+  rewrite IH. destruct (get_connptr w st); [|reflexivity]. destruct w; reflexivity.
 Qed.
 
 Lemma set_sb_shared l sb st : shared (set_sb l sb st) = shared st.
